@@ -30,7 +30,7 @@ func (check) Cases(tier string) int {
 }
 
 func (check) Rule() string {
-	return "(1) worlds of 1-6 settings (top-level and nested under s.) whose strings are expression trees of depth <= 3 (quick) / 5 over literals (incl. $ } : and blanks, with $ and } at the start, in the middle and at the END of a literal, so escape sequences sit at every position of a string including its last two characters; outside ${} a } is spelled } or $} at random, the respelled text being merged later), references (also with computed names), default/alternative/error operators and escapes, plus typed plain settings (int, uint, float, bool, object, list); every referenced name is placed on a random subset of the layers root / 0-2 Env configs / 0-2 resolvers (incl. zero resolvers), each layer's value naming the layer; the root is built by one merge or by several merges in random order with values overwritten later (late binding). Every expression setting is read through String(), Unpack into interface{} and string fields, and (nested ones) a Child handle, and compared with the model evaluator; resolver call order is monitored. (2) forests (forest.go): 3-6 small source configurations and 1-3 trees over 8 totally ordered names (2 plain values naming their tree, 6 expressions over the names before them, so no cycles); every tree is assembled by 2-6 merges in random order of Go data, of source configurations and of trees built earlier (Merge of a *Config: the same expression gets copied into several trees, in which the names it refers to have different values or are missing), 0-2 resolvers; every tree is read in turn with all the other trees as Env configurations: each setting through String(), Unpack into interface{} / string fields, a Child handle, and the whole tree through one Unpack into a map, compared with an evaluator that expands every expression against the tree it lives in, then the Env configurations most recently added first, then the resolvers. (3) expansion results are data (data.go): one setting built from a template (comma list, bracket list, nested list, object, object of list, plain text, bare) around a carrier that brings a marker text such as ${x}, ${x:oops}, ${x:+oops}, ${x:?oops} (alone or inside a text that is a list itself) into the RESULT of the expansion: an escape in the setting itself, a plain string of the tree, a setting whose own expansion yields the marker, an Env value (Env built without VarExp), a resolver answer under Noop/Env/DefaultConfig; x is defined (canary) or undefined; with or without an extra empty reference that makes the setting a string with expansions. Expected = the resulting text (known by construction) after the documented text->value step (parse.ValueWithConfig); read whole (Unpack into interface{}, whole configuration into a map) and element by element (String with idx, String with a path below the setting). (4) lookup order for names of 2-4 segments (pathblock.go): tree / 0-2 Env / 0-2 resolvers, every layer defines the name (value names the layer), holds a non-object (int, string, bool, float, reference to an int) at a proper prefix of the name, or nothing; read through ${n}, pre-${n}, ${n:d}, ${n:+a}, ${n:?m}, ${${nm}}; expected = the first layer in lookup order that defines the name, a layer with a non-object on the path does not define it. Round 4: in (1) one world in three also holds 1-2 expressions nested 1-60 levels below the root (dp.n.n...n.vJ), each with a twin holding the same expression at the top level (read through String, Unpack and a Child handle half way down, and compared with the twin), and every resolver of (1), (2) and (4) answers unknown names either with ErrMissing or with an error of its own (the older resolvers are asked all the same); in (2) every third tree ranks the names in an order of its own, so that the same names refer to each other in opposite directions in two trees (one name being resolved in two trees at once is no cycle; reads in which the model enters the same setting of the same tree twice are C08's business and not compared); in (4) an Env layer may be Env(nil) or the zero Config (holds nothing, is skipped), and a probe demands that an EMPTY resolver answer means the same in the lone reference, in a text and under the three operators. (5) typed twin (typed.go): a value (null, int, uint, float, bool, strings, list, object) directly in the tree and reached by a setting that is exactly one reference (to the setting, through two references, to an Env value, to a resolver answer, as a list element); Unpack of both into 3 of 18 targets (pointers, numbers, pre-set string / interface{}, time.Duration and slices of it, *Config, map, an Unpacker) and one typed getter must have the same outcome. (6) late binding under Merge (latebind.go): a reference ${b} merged ONTO an object / list / primitive / reference / nothing, b (object, list, primitive) defined by the same operand, by the target before, or only later, then changed by a last merge: the setting reads as the current b. Round 5: (2) is run twice per case, the second time as a RELAY forest: 3-4 trees over few names (one plain value, four expressions), every tree ranking the names in an order of its own and holding about half of them, so that a read is relayed through several Env configurations and the same name is resolved in two of them at once; general forests have up to 4 trees, every second one with an order of its own, one in three thin. In (1) settings below s. are also read through the child configurations handed out by Unpack: a *Config struct field (a view of the setting), and the same field after a second and a third Unpack of an overlay into the same struct (a private copy of the view) - getter and Unpack, with the Env configurations and resolvers of the world. Round 6: in (4) the configurations are created with PathSep . / or | and, after the reads with the options of creation agreed with the statement, the setting is read again by calls that bring no PathSep, another PathSep, or no option but the layers (String and Unpack): for a literal name in every form (lone reference, text, ${n:d}, ${n:+a}, ${n:?m}) the outcome must be the same - the name was split when the text was parsed (a computed name is observed only). (7) order of reads within one call (order.go): three trees per case of 3-5 top-level settings over a..e whose expressions are rich in default / alternative operators and refer to each other in both directions (cycles absorbed by an operator are the rule), optionally one Env configuration and one resolver; every setting the evaluator gives a value is read alone (String), as a field of a struct in ONE Unpack call for 2-3 random field orders and subsets (string / interface{} fields), and by one Unpack of the whole tree into a map: always the one value of the evaluator. Non-trivial = the read involved at least one reference; distinct = distinct (world or forest + tree read, setting) / distinct data, lookup, typed or late-binding case."
+	return "(1) worlds of 1-6 settings (top-level and nested under s.) whose strings are expression trees of depth <= 3 (quick) / 5 over literals (incl. $ } : and blanks, with $ and } at the start, in the middle and at the END of a literal, so escape sequences sit at every position of a string including its last two characters; outside ${} a } is spelled } or $} at random, the respelled text being merged later), references (also with computed names), default/alternative/error operators and escapes, plus typed plain settings (int, uint, float, bool, object, list); every referenced name is placed on a random subset of the layers root / 0-2 Env configs / 0-2 resolvers (incl. zero resolvers), each layer's value naming the layer; the root is built by one merge or by several merges in random order with values overwritten later (late binding). Every expression setting is read through String(), Unpack into interface{} and string fields, and (nested ones) a Child handle, and compared with the model evaluator; resolver call order is monitored. (2) forests (forest.go): 3-6 small source configurations and 1-3 trees over 8 totally ordered names (2 plain values naming their tree, 6 expressions over the names before them, so no cycles); every tree is assembled by 2-6 merges in random order of Go data, of source configurations and of trees built earlier (Merge of a *Config: the same expression gets copied into several trees, in which the names it refers to have different values or are missing), 0-2 resolvers; every tree is read in turn with all the other trees as Env configurations: each setting through String(), Unpack into interface{} / string fields, a Child handle, and the whole tree through one Unpack into a map, compared with an evaluator that expands every expression against the tree it lives in, then the Env configurations most recently added first, then the resolvers. (3) expansion results are data (data.go): one setting built from a template (comma list, bracket list, nested list, object, object of list, plain text, bare) around a carrier that brings a marker text such as ${x}, ${x:oops}, ${x:+oops}, ${x:?oops} (alone or inside a text that is a list itself) into the RESULT of the expansion: an escape in the setting itself, a plain string of the tree, a setting whose own expansion yields the marker, an Env value (Env built without VarExp), a resolver answer under Noop/Env/DefaultConfig; x is defined (canary) or undefined; with or without an extra empty reference that makes the setting a string with expansions. Expected = the resulting text (known by construction) after the documented text->value step (parse.ValueWithConfig); read whole (Unpack into interface{}, whole configuration into a map) and element by element (String with idx, String with a path below the setting). (4) lookup order for names of 2-4 segments (pathblock.go): tree / 0-2 Env / 0-2 resolvers, every layer defines the name (value names the layer), holds a non-object (int, string, bool, float, reference to an int) at a proper prefix of the name, or nothing; read through ${n}, pre-${n}, ${n:d}, ${n:+a}, ${n:?m}, ${${nm}}; expected = the first layer in lookup order that defines the name, a layer with a non-object on the path does not define it. Round 4: in (1) one world in three also holds 1-2 expressions nested 1-60 levels below the root (dp.n.n...n.vJ), each with a twin holding the same expression at the top level (read through String, Unpack and a Child handle half way down, and compared with the twin), and every resolver of (1), (2) and (4) answers unknown names either with ErrMissing or with an error of its own (the older resolvers are asked all the same); in (2) every third tree ranks the names in an order of its own, so that the same names refer to each other in opposite directions in two trees (one name being resolved in two trees at once is no cycle; reads in which the model enters the same setting of the same tree twice are C08's business and not compared); in (4) an Env layer may be Env(nil) or the zero Config (holds nothing, is skipped), and a probe demands that an EMPTY resolver answer means the same in the lone reference, in a text and under the three operators. (5) typed twin (typed.go): a value (null, int, uint, float, bool, strings, list, object) directly in the tree and reached by a setting that is exactly one reference (to the setting, through two references, to an Env value, to a resolver answer, as a list element); Unpack of both into 3 of 18 targets (pointers, numbers, pre-set string / interface{}, time.Duration and slices of it, *Config, map, an Unpacker) and one typed getter must have the same outcome. (6) late binding under Merge (latebind.go): a reference ${b} merged ONTO an object / list / primitive / reference / nothing, b (object, list, primitive) defined by the same operand, by the target before, or only later, then changed by a last merge: the setting reads as the current b. Round 5: (2) is run twice per case, the second time as a RELAY forest: 3-4 trees over few names (one plain value, four expressions), every tree ranking the names in an order of its own and holding about half of them, so that a read is relayed through several Env configurations and the same name is resolved in two of them at once; general forests have up to 4 trees, every second one with an order of its own, one in three thin. In (1) settings below s. are also read through the child configurations handed out by Unpack: a *Config struct field (a view of the setting), and the same field after a second and a third Unpack of an overlay into the same struct (a private copy of the view) - getter and Unpack, with the Env configurations and resolvers of the world. Round 6: in (4) the configurations are created with PathSep . / or | and, after the reads with the options of creation agreed with the statement, the setting is read again by calls that bring no PathSep, another PathSep, or no option but the layers (String and Unpack): for a literal name in every form (lone reference, text, ${n:d}, ${n:+a}, ${n:?m}) the outcome must be the same - the name was split when the text was parsed (a computed name is observed only). (7) order of reads within one call (order.go): three trees per case of 3-5 top-level settings over a..e whose expressions are rich in default / alternative operators and refer to each other in both directions (cycles absorbed by an operator are the rule), optionally one Env configuration and one resolver; every setting the evaluator gives a value is read alone (String), as a field of a struct in ONE Unpack call for 2-3 random field orders and subsets (string / interface{} fields), and by one Unpack of the whole tree into a map: always the one value of the evaluator. (8) blank results (blank.go): one tree per case with 1-3 settings (top level, below s., element 1 of a list) whose text concatenates 1-3 pieces each bringing blanks / tabs / newlines only (or nothing): a literal, a reference to a plain string of the tree, ${unset:BL}, ${emptyset:BL}, ${set:+BL}, an Env value, a resolver answer under Noop/Env/DefaultConfig, a default that is itself a reference, a reference to a setting whose own expansion yields blanks; read through String (path and idx), ONE Unpack into pre-filled string / interface{} fields and pre-filled []string / []interface{}, one Unpack into a map, a Child handle (String and Unpack): the result is a string (never null, a field left at its pre-filled value, or an error), the same through every read path. Non-trivial = the read involved at least one reference; distinct = distinct (world or forest + tree read, setting) / distinct data, lookup, typed or late-binding case."
 }
 
 func (check) Assumptions() []string {
@@ -43,6 +43,7 @@ func (check) Assumptions() []string {
 		"data workload: results the text->value step rejects (parse error) are not compared; the text->value step itself is C17's business and is used as the oracle for it",
 		"an empty string answered by a resolver without error: the statement does not say whether the name is then set-and-empty or not found by that resolver; demanded is only that every form (lone reference, text, operators) treats it the same way; the world/forest/lookup resolvers never answer with an empty string",
 		"not demanded (audit round 4): that the text of Error() of a typed getter contains the message m of ${x:?m} - m must be recoverable from the error (text or chain of reasons); the result of a text with expansions taking the documented text->value step (007 -> 7, trimmed blanks, lists) is by design; evaluation time of long chains",
+		"blank results (blank.go): the text with every reference replaced, when it consists of white space only, is demanded to be read as a STRING (not null, not a skipped field, not an error). A setting that is exactly one reference to a plain string of the tree or of an Env configuration must yield that very string (the referenced value with its type). For every other form (text with expansions, lone operator, resolver answer, reference to a setting with expansions) the text passes the text->value step, which trims: both the blanks themselves (what the library does, uniformly through String / Unpack / list elements / Child; monitor blank_results_read_as_the_blanks_themselves) and the trimmed empty string are accepted, but all read paths of one setting must agree. Texts like ' , ' that the text->value step rejects are not generated; Env values and resolver answers in this workload are never empty",
 		"monitored, not judged (the statement does not pin them down): (i) whose PathSep/MaxIdx/EnableNumKeys/EscapePath split a COMPUTED name (${${nm}}): the library uses the options of the read call, literal names were split at creation (monitor read_with_other_pathsep_than_creation); (ii) a name whose value is null under the operators: the library treats null as set and non-empty, rendering it as the text null (monitor null_valued_name_observed)",
 	}
 }
@@ -257,6 +258,8 @@ func (check) Run(seed int64, tier string, idx int, verbose bool) harness.Result 
 	runLateBind(res, rand.New(rand.NewSource(harness.Mix(seed, "C02-latebind", idx))), idx, verbose)
 	// seventh workload: several settings read in one call, in random orders (order.go)
 	runOrder(res, rand.New(rand.NewSource(harness.Mix(seed, "C02-order", idx))), idx, verbose)
+	// eighth workload: expansion results made of white space only (blank.go)
+	runBlank(res, rand.New(rand.NewSource(harness.Mix(seed, "C02-blank", idx))), idx, verbose)
 	return res.Done()
 }
 
